@@ -9,6 +9,10 @@
                             merge_swap_* (`dir == (compar (..) > 0)`, all five copies), merge_remote_lower (rank < peer->prank),
                             merge_recurse (arguments of the two recursive calls)
   sc_psort_bitonic          psort_guard, psort_inside (lo >= my_lo && hi <= my_hi), psort_recurse (n / 2, !dir, the three calls)
+  the local sort            in ALL THREE preprocessor configurations (GNU qsort_r, BSD qsort_r, plain qsort): the comparison wrappers
+                            sc_compare_r / sc_icompare_r / sc_icompare (whole functions; the user's function is compar : Z -> Z -> Z),
+                            psort_local_cmp_<v> (the `dir ? f : g` argument of the qsort call), psort_local_start / _n / _size_<v>;
+                            structural: pst.compar / sc_compare are assigned the parameter compar in sc_psort and nowhere else
 coq/C05/PsortGen.v proves that the hand-written model (PsortModel.v, over nat) computes exactly these."""
 import os, re
 
